@@ -10,7 +10,7 @@ NEED_RELEASE = True
 COQ_TARGETS = ["Props/C12.vo", "Props/C12_fp.vo"]
 PROPS_FILES = ["C12", "C12_fp"]
 THEOREMS = ["C12_fingerprints", "C12_circle_norm", "C12_sphere_norm", "C12_disc_ball_norm", "C12_circle_angle_doubling", "C12_sphere_z_linear",
-            "C12_u_pm1_range", "C12_unit_circle_norm", "C12_unit_sphere_norm", "C12_unit_disc_norm", "C12_unit_ball_norm"]
+            "C12_u_pm1_range", "C12_unit_circle_real", "C12_circle_origin_rejected", "C12_unit_circle_norm", "C12_unit_sphere_norm", "C12_unit_disc_norm", "C12_unit_ball_norm"]
 TRUSTED_BASE = [
     "Coq 8.16.1 kernel; stdlib real axioms; Proofs/MultiProofs.v: norm identities of von Neumann's circle and Marsaglia's sphere transforms, "
     "angle doubling, z = 1 - 2s, lifted by induction over the rejection loop to every result of the models coq/Model/Multi.v; the uniform draw "
@@ -20,7 +20,8 @@ TRUSTED_BASE = [
     "classical geometry not formalised here (B-class, DESIGN.md §8)",
     "direct oracle: |norm - 1| <= 4 ulp (circle, sphere), norm <= 1 + 2 ulp (disc, ball), no NaN, on random and single-word-adversarial streams",
 ]
-ASSUMPTIONS = ["s = 0 (both draws exactly 0) needs two coincident words and is outside the quantifier (UnitCircle then returns NaN: noted in DESIGN.md)"]
+ASSUMPTIONS = ["UnitCircle returned [NaN, NaN] for the candidate (0,0) on the pinned tree: repaired by fix 4622ae6 (the origin is rejected); "
+               "Props/C12.v now proves that every result of the model consists of real numbers (C12_unit_circle_real)"]
 FAMS = ["unitcircle", "unitdisc", "unitsphere", "unitball"]
 
 
@@ -36,6 +37,36 @@ def correspond(ctx):
                 else:
                     words = S.random_words(rng, 40)
                 jobs.append((fam, ty, (), words))
+    # crafted candidates: the first two (three) draws are chosen so that the candidate point lies next to the acceptance boundary
+    # x1^2+x2^2(+x3^2) = 1 on both sides, at a grid of directions that contains the axes and the diagonals, or has a coordinate that is
+    # exactly 0 / -1 / the largest draw (events of probability <= 2^-23 per draw that no seeded stream reaches)
+    def word_for(ty, x):
+        if ty == "f64":
+            k = max(0, min(2 ** 52 - 1, int(round((x + 1.0) * 2.0 ** 51)))); return (k << 12) | rng.below(1 << 12)
+        k = max(0, min(2 ** 23 - 1, int(round((x + 1.0) * 2.0 ** 22)))); return (k << 41) | rng.below(1 << 41)
+    nang = 16 if tier == "quick" else 128
+    deltas = [0.0, 2.0 ** -50, 2.0 ** -40, 1e-9, 2.0 ** -23, 2.0 ** -22, 1e-6, 2e-6, 3e-6, 1e-5, 1e-4, 1e-3]
+    dirs2 = [(math.cos(2 * math.pi * j / nang), math.sin(2 * math.pi * j / nang)) for j in range(nang)]
+    r2, r3 = math.sqrt(0.5), math.sqrt(1.0 / 3.0)
+    dirs3 = [(a, b, 0.0) for a, b in dirs2[::2]] + [(a * r2 * math.sqrt(2) * r2, b * r2, r2) for a, b in dirs2[::2]] + \
+            [(sx * r3, sy * r3, sz * r3) for sx in (1, -1) for sy in (1, -1) for sz in (1, -1)] + \
+            [(sx * r2, 0.0, sz * r2) for sx in (1, -1) for sz in (1, -1)] + [(0.0, sy * r2, sz * r2) for sy in (1, -1) for sz in (1, -1)]
+    specials = [0.0, -1.0, 1.0, 0.5, -0.5, 2.0 ** -22, -2.0 ** -22, 2.0 ** -51, 0.999999, -0.999999, 0.70710678, -0.70710678]
+    crafted = 0
+    for fam in FAMS:
+        dim = 3 if fam == "unitball" else 2
+        for ty in ("f64", "f32"):
+            cands = []
+            for d in (dirs3 if dim == 3 else dirs2):
+                for dl in deltas:
+                    for sg in (1.0, -1.0):
+                        cands.append(tuple(c * (1.0 + sg * dl) for c in d))
+            for a in specials:
+                for b in specials:
+                    cands.append((a, b) if dim == 2 else (a, b, specials[(len(cands)) % len(specials)]))
+            for cand in cands:
+                words = [word_for(ty, c) for c in cand] + S.random_words(rng, 40 - dim)
+                jobs.append((fam, ty, (), words)); crafted += 1
     res = M.run(ctx, jobs, "C12")
     oracle_failures, mismatches = [], []
     stats = {"match": 0, "mismatch": 0, "unjudged": 0}
@@ -83,11 +114,13 @@ def correspond(ctx):
                                     "what": "%s: %s of %s seeded samples violate the norm constraint, %s NaN (first: %s)" % (line.split()[1] + "<" + line.split()[2] + ">", f["bad"], f["n"], f["nan"], f["first"])})
     return {
         "evaluations": len(jobs) + bulk, "distinct_nontrivial": len({(j[0], j[1], tuple(j[3][:4])) for j in jobs}),
-        "rule": "4 samplers x {f32,f64} x word streams (3/4 random, 1/4 with one lattice word at a position < 4): real crate output vs Coq model "
+        "rule": "4 samplers x {f32,f64} x word streams (3/4 random, 1/4 with one lattice word at a position < 4) plus crafted first candidates next to "
+                "the acceptance boundary (direction grid incl. axes and diagonals x radii 1 +- {0, 2^-50 .. 1e-3}) and with coordinates exactly 0, -1, "
+                "largest draw: real crate output vs Coq model "
                 "(same words consumed, every component inside its enclosure) and the norm predicate on the real output; distinct by first 4 words",
         "samples": [res[0]["line"][:200], res[0]["out"]],
         "mismatches": mismatches, "oracle_failures": oracle_failures,
-        "extra": {"model_vs_crate": stats, "max_norm_deviation_ulp": maxdev, "bulk_norm_samples": bulk},
+        "extra": {"crafted_boundary_candidates": crafted, "model_vs_crate": stats, "max_norm_deviation_ulp": maxdev, "bulk_norm_samples": bulk},
     }
 
 
